@@ -515,6 +515,14 @@ structure OInv (g : Graph) (ws : List Int) (cap lb0 lb1 : Int) (CT : Prop) (prm 
   rle : ∀ x ∈ o.moves.zip o.rewound, x.2 ≤ x.1
   hamk : ham p0 o.part ≤ kept o.moves o.rewound
 
+theorem initPass_inv' {g : Graph} {ws : List Int} {cap lb0 lb1 : Int} {CT : Prop} {o : Outer}
+    (G : Good g ws cap lb0 lb1 CT o 0 o.best o.part o.pw0 o.pw1) :
+    Inv g ws cap lb0 lb1 CT o 0 (initPass g o) := by
+  refine ⟨G, by simp [initPass], rfl, ?_, ?_, Int.le_refl _, fun _ => rfl, ?_⟩
+  · intro e he; simp [initPass] at he
+  · intro b hb; simp [initPass] at hb
+  · exact ⟨o.part, o.pw0, o.pw1, rfl, G⟩
+
 theorem initPass_inv {g : Graph} {ws : List Int} {cap lb0 lb1 : Int} {CT : Prop} {prm : Params}
     {p0 : List Nat} {c0 : Int} {i : Nat} {o : Outer}
     (O : OInv g ws cap lb0 lb1 CT prm p0 c0 i o) :
@@ -749,5 +757,659 @@ theorem gainOf_set (g : Graph) (p : List Nat) (v u : Nat) (hv : v < p.length) (h
       simp [a, b] <;> omega
     · simp only [hev, if_false]
       split <;> split <;> omega
+
+/-! ## Part 4: flipping one vertex changes the cut by minus its gain (`cut_track`) -/
+
+theorem zipIdx_eq (g : Graph) : g.zipIdx = (List.range g.length).map (fun i => (rowOf g i, i)) := by
+  apply List.ext_getElem
+  · simp
+  · intro i h1 h2
+    have hi : i < g.length := by simpa using h1
+    simp [rowOf, List.getD_eq_getElem?_getD, List.getElem?_eq_getElem hi]
+
+theorem sum_map_add {α} (l : List α) (f h : α → Int) :
+    (l.map (fun x => f x + h x)).sum = (l.map f).sum + (l.map h).sum := by
+  induction l with
+  | nil => simp
+  | cons a l ih => simp only [List.map_cons, List.sum_cons, ih]; omega
+
+theorem sum_map_zero {α} (l : List α) (f : α → Int) (H : ∀ x ∈ l, f x = 0) : (l.map f).sum = 0 := by
+  induction l with
+  | nil => simp
+  | cons a l ih =>
+    simp only [List.map_cons, List.sum_cons]
+    rw [ih (fun x hx => H x (by simp [hx])), H a (by simp)]; rfl
+
+theorem sum_range_ite (n v : Nat) (a : Nat → Int) (hv : v < n) :
+    ((List.range n).map (fun i => if i = v then a i else 0)).sum = a v := by
+  induction n with
+  | zero => omega
+  | succ n ih =>
+    rw [List.range_succ, List.map_append, List.sum_append]
+    by_cases h : v = n
+    · subst h
+      rw [sum_map_zero _ _ (fun x hx => by
+        have : x < v := by simpa using hx
+        simp; omega)]
+      simp
+    · rw [ih (by omega)]
+      simp; omega
+
+
+theorem takeWhile_eq_filter (row : Row) (i : Nat) (hs : row.Pairwise (fun a b => a.1 < b.1)) :
+    row.takeWhile (fun e => decide (e.1 < i)) = row.filter (fun e => decide (e.1 < i)) := by
+  induction row with
+  | nil => rfl
+  | cons e row ih =>
+    rw [List.pairwise_cons] at hs
+    by_cases h : e.1 < i
+    · simp only [List.takeWhile_cons, List.filter_cons, h, decide_true, if_true]
+      rw [ih hs.2]
+    · simp only [List.takeWhile_cons, List.filter_cons, h, decide_false]
+      symm
+      simp only [Bool.false_eq_true, if_false]
+      rw [List.filter_eq_nil_iff]
+      intro a ha
+      have := hs.1 a ha
+      simp; omega
+
+/-- Contribution of one stored entry of row `i` to the cut. -/
+def cterm (p : List Nat) (i : Nat) (e : Nat × Int) : Int :=
+  if e.1 < i ∧ partOf p i ≠ partOf p e.1 then e.2 else 0
+
+theorem rowCut_eq (p : List Nat) (i : Nat) (row : Row) (hs : row.Pairwise (fun a b => a.1 < b.1)) :
+    rowCut p i row = (row.map (cterm p i)).sum := by
+  unfold rowCut
+  rw [takeWhile_eq_filter row i hs]
+  clear hs
+  induction row with
+  | nil => rfl
+  | cons e row ih =>
+    simp only [List.filter_cons, List.map_cons, List.sum_cons, cterm]
+    by_cases h1 : e.1 < i <;> by_cases h2 : partOf p i = partOf p e.1 <;>
+      simp [h1, h2] at ih ⊢ <;> omega
+
+
+/-- The term of `e` in the gain of `v`. -/
+def gterm (p : List Nat) (v : Nat) (e : Nat × Int) : Int :=
+  if partOf p e.1 = partOf p v then -e.2 else e.2
+
+theorem rowDiff (p : List Nat) (v i : Nat) (row : Row) (hv : v < p.length) (hle : ∀ x ∈ p, x ≤ 1)
+    (hnl : ∀ e ∈ row, e.1 ≠ i) :
+    (row.map (cterm (p.set v (1 - partOf p v)) i)).sum =
+      (row.map (cterm p i)).sum
+      + (if i = v then -(row.map (fun e => if e.1 < v then gterm p v e else 0)).sum else 0)
+      + (if v < i then (if partOf p i = partOf p v then wtRow row v else -wtRow row v) else 0) := by
+  induction row with
+  | nil => simp [wtRow]
+  | cons e row ih =>
+    have ih' := ih (fun e he => hnl e (by simp [he]))
+    have hei : e.1 ≠ i := hnl e (by simp)
+    have hw : wtRow (e :: row) v = (if e.1 = v then e.2 else 0) + wtRow row v := by simp [wtRow]
+    simp only [List.map_cons, List.sum_cons]
+    rw [ih', hw]
+    have hpi := partOf_le_one hle i
+    have hpv := partOf_le_one hle v
+    have hpe := partOf_le_one hle e.1
+    simp only [cterm, gterm, partOf_set p v _ _ hv]
+    generalize (List.map (cterm p i) row).sum = A
+    generalize (List.map (fun e => if e.1 < v then gterm p v e else 0) row).sum = B
+    generalize wtRow row v = C
+    by_cases h1 : i = v
+    · subst h1
+      have h2 : e.1 ≠ i := hei
+      simp only [h2, if_false, if_true, Nat.lt_irrefl]
+      by_cases h3 : e.1 < i
+      · rcases (by omega : partOf p i = 0 ∨ partOf p i = 1) with a | a <;>
+        rcases (by omega : partOf p e.1 = 0 ∨ partOf p e.1 = 1) with b | b <;>
+        simp [a, b, h3] <;> omega
+      · simp [h3]
+    · simp only [h1, if_false]
+      by_cases h2 : e.1 = v
+      · by_cases h4 : v < i
+        · have h3 : e.1 < i := by omega
+          rcases (by omega : partOf p i = 0 ∨ partOf p i = 1) with a | a <;>
+          rcases (by omega : partOf p v = 0 ∨ partOf p v = 1) with b | b <;>
+          simp [a, b, h2, h4] <;> omega
+        · have h3 : ¬ e.1 < i := by omega
+          simp [h2, h4]
+      · simp only [h2, if_false]
+        split <;> split <;> omega
+
+
+theorem sum_map_congr {α} (l : List α) (f h : α → Int) (H : ∀ x ∈ l, f x = h x) :
+    (l.map f).sum = (l.map h).sum := by
+  rw [List.map_congr_left H]
+
+theorem groupBy (p : List Nat) (v n : Nat) (row : Row) (hidx : ∀ e ∈ row, e.1 < n) :
+    ((List.range n).map (fun i => if v < i then
+        (if partOf p i = partOf p v then wtRow row i else -wtRow row i) else 0)).sum =
+      (row.map (fun e => if v < e.1 then
+        (if partOf p e.1 = partOf p v then e.2 else -e.2) else 0)).sum := by
+  induction row with
+  | nil => exact sum_map_zero _ _ (fun i _ => by simp [wtRow])
+  | cons e row ih =>
+    have he : e.1 < n := hidx e (by simp)
+    simp only [List.map_cons, List.sum_cons]
+    rw [← ih (fun e he => hidx e (by simp [he]))]
+    rw [← sum_range_ite n e.1 (fun i => if v < i then
+        (if partOf p i = partOf p v then e.2 else -e.2) else 0) he, ← sum_map_add]
+    apply sum_map_congr
+    intro i _
+    have hw : wtRow (e :: row) i = (if e.1 = i then e.2 else 0) + wtRow row i := by simp [wtRow]
+    rw [hw]
+    by_cases h : i = e.1
+    · subst h; simp only [if_true]; split <;> (try split) <;> omega
+    · have h' : ¬ e.1 = i := fun x => h x.symm
+      simp only [h, h', if_false]; split <;> (try split) <;> omega
+
+theorem final_sum (p : List Nat) (v : Nat) (row : Row) (hnl : ∀ e ∈ row, e.1 ≠ v) :
+    -(row.map (fun e => if e.1 < v then gterm p v e else 0)).sum +
+      (row.map (fun e => if v < e.1 then
+        (if partOf p e.1 = partOf p v then e.2 else -e.2) else 0)).sum =
+      -(row.map (fun e => if partOf p e.1 = partOf p v then -e.2 else e.2)).sum := by
+  induction row with
+  | nil => simp
+  | cons e row ih =>
+    have := ih (fun e he => hnl e (by simp [he]))
+    have hne : e.1 ≠ v := hnl e (by simp)
+    simp only [List.map_cons, List.sum_cons, gterm] at this ⊢
+    by_cases h : e.1 < v
+    · have h' : ¬ v < e.1 := by omega
+      simp only [h, h', if_true, if_false]; split <;> omega
+    · have h' : v < e.1 := by omega
+      simp only [h, h', if_true, if_false]; split <;> omega
+
+theorem edgeCut_flip (g : Graph) (V : Valid g) (p : List Nat) (v : Nat) (hp : p.length = g.length)
+    (hv : v < g.length) (hle : ∀ x ∈ p, x ≤ 1) :
+    edgeCut g (p.set v (1 - partOf p v)) = edgeCut g p - gainOf g p v := by
+  have hvp : v < p.length := by omega
+  unfold edgeCut gainOf
+  rw [zipIdx_eq, List.map_map, List.map_map]
+  have e1 : ((List.range g.length).map
+      ((fun rv : Row × Nat => rowCut (p.set v (1 - partOf p v)) rv.2 rv.1) ∘ fun i => (rowOf g i, i))).sum =
+      ((List.range g.length).map (fun i => (rowCut p i (rowOf g i)
+        + (if i = v then -((rowOf g i).map (fun e => if e.1 < v then gterm p v e else 0)).sum else 0))
+        + (if v < i then (if partOf p i = partOf p v then wtRow (rowOf g v) i
+            else -wtRow (rowOf g v) i) else 0))).sum := by
+    apply sum_map_congr
+    intro i hi
+    have hi' : i < g.length := by simpa using hi
+    simp only [Function.comp]
+    rw [rowCut_eq _ _ _ (V.sorted i hi'), rowCut_eq _ _ _ (V.sorted i hi'),
+      rowDiff p v i _ hvp hle (V.noloop i hi'), V.sym i hi' v hv]
+  rw [e1, sum_map_add, sum_map_add, sum_range_ite _ _ _ hv, groupBy p v g.length _ (V.idx v hv)]
+  have := final_sum p v (rowOf g v) (V.noloop v hv)
+  have e2 : ((List.range g.length).map
+      ((fun rv : Row × Nat => rowCut p rv.2 rv.1) ∘ fun i => (rowOf g i, i))).sum =
+      ((List.range g.length).map (fun i => rowCut p i (rowOf g i))).sum := rfl
+  rw [e2]
+  omega
+
+theorem initPass_ginv (g : Graph) (o : Outer) : GInv g (initPass g o) := by
+  intro u x hx
+  have hlt := getD_some_lt hx
+  simp only [initPass, List.length_map, List.length_range] at hlt
+  simp only [initPass, List.getD_eq_getElem?_getD] at hx
+  rw [List.getElem?_eq_getElem (by simpa using hlt)] at hx
+  simp at hx
+  exact hx.symm
+
+/-- The gain table after a move is again exact (`gain_inv`, step). -/
+theorem applyMove_ginv {prm : Params} {g : Graph} {ws : List Int} {mpg : Int}
+    {st st' : PassSt} {k v : Nat} {gn : Int} {nS : Nat} (V : Valid g)
+    (hpl : st.part.length = g.length) (hgl : st.gains.length = g.length)
+    (hle : ∀ i ∈ st.part, i ≤ 1) (GI : GInv g st) (hv : v < g.length)
+    (h : applyMove prm g ws mpg st k v gn nS = .ok st') : GInv g st' := by
+  unfold applyMove at h
+  simp only at h
+  split at h
+  · simp at h
+  · split at h
+    · simp at h
+    · next gains' hu =>
+      simp only [Except.ok.injEq] at h
+      subst h
+      intro u x hx
+      simp only at hx ⊢
+      have hvg : v < st.gains.length := by omega
+      -- `u` was free before the update
+      cases hgu : (st.gains.set v none).getD u none with
+      | none => rw [updNbrs_none hu u hgu] at hx; simp at hx
+      | some y =>
+        have huv : u ≠ v := by
+          intro e; subst e
+          rw [getD_set_none _ _ _ hvg (Or.inr rfl)] at hgu; simp at hgu
+        have hy : st.gains.getD u none = some y := by
+          simpa [List.getD_eq_getElem?_getD, List.getElem?_set_ne (Ne.symm huv)] using hgu
+        have hul : u < g.length := by rw [← hgl]; exact getD_some_lt hy
+        rw [updNbrs_val hu u y hgu] at hx
+        simp only [Option.some.injEq] at hx
+        rw [← hx, GI u y hy, gainOf_set g st.part v u (by omega) huv hle,
+          partOf_set _ _ _ _ (by omega : v < st.part.length), if_neg huv, V.sym u hul v hv]
+
+theorem sum_nonneg (l : List Int) (h : ∀ x ∈ l, 0 ≤ x) : 0 ≤ l.sum := by
+  induction l with
+  | nil => simp
+  | cons a l ih =>
+    have := ih (fun x hx => h x (by simp [hx]))
+    have := h a (by simp)
+    simp only [List.sum_cons]; omega
+
+theorem gain_abs_le (p : List Nat) (v : Nat) (row : Row) (hnn : ∀ e ∈ row, 0 ≤ e.2) :
+    -(rowSum row) ≤ (row.map (fun e => if partOf p e.1 = partOf p v then -e.2 else e.2)).sum ∧
+    (row.map (fun e => if partOf p e.1 = partOf p v then -e.2 else e.2)).sum ≤ rowSum row := by
+  unfold rowSum
+  induction row with
+  | nil => simp
+  | cons e row ih =>
+    have := ih (fun e he => hnn e (by simp [he]))
+    have := hnn e (by simp)
+    simp only [List.map_cons, List.sum_cons]
+    split <;> omega
+
+theorem le_foldl_max (l : List Int) (a : Int) :
+    a ≤ l.foldl max a ∧ ∀ x ∈ l, x ≤ l.foldl max a := by
+  induction l generalizing a with
+  | nil => simp
+  | cons b l ih =>
+    simp only [List.foldl_cons]
+    obtain ⟨h1, h2⟩ := ih (max a b)
+    refine ⟨by omega, ?_⟩
+    intro x hx
+    simp only [List.mem_cons] at hx
+    rcases hx with rfl | hx
+    · omega
+    · exact h2 x hx
+
+theorem rowSum_le_mpg (g : Graph) (v : Nat) (hv : v < g.length) :
+    rowSum (rowOf g v) ≤ maxPossibleGain g := by
+  have hmem : rowSum (rowOf g v) ∈ g.map rowSum := by
+    simp only [List.mem_map]
+    refine ⟨g[v], List.getElem_mem _, ?_⟩
+    simp [rowOf, List.getD_eq_getElem?_getD, List.getElem?_eq_getElem hv]
+  unfold maxPossibleGain
+  split
+  · next h => rw [h] at hmem; simp at hmem
+  · next x xs h =>
+    rw [h] at hmem
+    obtain ⟨h1, h2⟩ := le_foldl_max xs x
+    simp only [List.mem_cons] at hmem
+    rcases hmem with e | e
+    · rw [e]; exact h1
+    · exact h2 _ e
+
+theorem gain_inRange {g : Graph} (V : Valid g) (p : List Nat) (v : Nat) (hv : v < g.length) :
+    inRange (maxPossibleGain g) (gainOf g p v) = true := by
+  have h1 := gain_abs_le p v (rowOf g v) (V.nonneg v hv)
+  have h2 := rowSum_le_mpg g v hv
+  unfold gainOf inRange
+  simp only [Bool.and_eq_true, decide_eq_true_eq]
+  omega
+
+theorem mpg_nonneg {g : Graph} (V : Valid g) : 0 ≤ maxPossibleGain g := by
+  cases g with
+  | nil => simp [maxPossibleGain]
+  | cons r g =>
+    have h2 := rowSum_le_mpg (r :: g) 0 (by simp)
+    have h1 := gain_abs_le [] 0 (rowOf (r :: g) 0) (V.nonneg 0 (by simp))
+    omega
+
+theorem edgeCut_nonneg {g : Graph} (V : Valid g) (p : List Nat) : 0 ≤ edgeCut g p := by
+  unfold edgeCut
+  rw [zipIdx_eq, List.map_map]
+  apply sum_nonneg
+  intro x hx
+  simp only [List.mem_map, List.mem_range, Function.comp] at hx
+  obtain ⟨i, hi, rfl⟩ := hx
+  rw [rowCut_eq _ _ _ (V.sorted i hi)]
+  apply sum_nonneg
+  intro y hy
+  simp only [List.mem_map] at hy
+  obtain ⟨e, he, rfl⟩ := hy
+  have := V.nonneg i hi e he
+  unfold cterm
+  split <;> omega
+
+theorem negTotal_nonneg (g : Graph) : 0 ≤ negTotal g := by
+  unfold negTotal
+  apply sum_nonneg
+  intro x hx
+  simp only [List.mem_map] at hx
+  obtain ⟨row, _, rfl⟩ := hx
+  apply sum_nonneg
+  intro y hy
+  simp only [List.mem_map] at hy
+  obtain ⟨e, _, rfl⟩ := hy
+  split <;> omega
+
+/-! counting free vertices -/
+def countSome (gs : List (Option Int)) : Nat := (gs.filter Option.isSome).length
+
+theorem countSome_set_some (gs : List (Option Int)) (u : Nat) (x y : Int)
+    (h : gs.getD u none = some x) : countSome (gs.set u (some y)) = countSome gs := by
+  induction gs generalizing u with
+  | nil => simp at h
+  | cons a gs ih =>
+    cases u with
+    | zero =>
+      simp only [List.getD_cons_zero] at h
+      subst h
+      simp [countSome]
+    | succ u =>
+      simp only [List.getD_cons_succ] at h
+      have := ih u h
+      simp only [countSome, List.set_cons_succ, List.filter_cons] at this ⊢
+      split <;> simp [this]
+
+theorem countSome_set_none (gs : List (Option Int)) (u : Nat) (x : Int)
+    (h : gs.getD u none = some x) : countSome (gs.set u none) + 1 = countSome gs := by
+  induction gs generalizing u with
+  | nil => simp at h
+  | cons a gs ih =>
+    cases u with
+    | zero =>
+      simp only [List.getD_cons_zero] at h
+      subst h
+      simp [countSome]
+    | succ u =>
+      simp only [List.getD_cons_succ] at h
+      have := ih u h
+      simp only [countSome, List.set_cons_succ, List.filter_cons] at this ⊢
+      split <;> (try simp only [List.length_cons]) <;> omega
+
+theorem updNbrs_count {mpg : Int} {part : List Nat} {ip : Nat} {row : Row}
+    {gs gs' : List (Option Int)} (h : updNbrs mpg part ip row gs = .ok gs') :
+    countSome gs' = countSome gs := by
+  induction row generalizing gs with
+  | nil => simp only [updNbrs, Except.ok.injEq] at h; rw [← h]
+  | cons e row ih =>
+    obtain ⟨u, w⟩ := e
+    simp only [updNbrs] at h
+    split at h
+    · exact ih h
+    · next og hog =>
+      have key : ∀ ug : Int, (if inRange mpg ug = true then updNbrs mpg part ip row (gs.set u (some ug))
+          else Except.error Abort.bucketIndex) = Except.ok gs' → countSome gs' = countSome gs := by
+        intro ug h
+        split at h
+        · rw [ih h, countSome_set_some gs u og ug hog]
+        · simp at h
+      split at h <;> exact key _ h
+
+theorem wtRow_nonneg (row : Row) (u : Nat) (hnn : ∀ e ∈ row, 0 ≤ e.2) : 0 ≤ wtRow row u := by
+  unfold wtRow
+  apply sum_nonneg
+  intro x hx
+  simp only [List.mem_map] at hx
+  obtain ⟨e, he, rfl⟩ := hx
+  have := hnn e he
+  split <;> omega
+
+theorem inRange_iff (mpg x : Int) : inRange mpg x = true ↔ -mpg ≤ x ∧ x ≤ mpg := by
+  simp [inRange]
+
+theorem updNbrs_ok {mpg : Int} {part : List Nat} {ip : Nat} (row : Row) (gs : List (Option Int))
+    (hnn : ∀ e ∈ row, 0 ≤ e.2)
+    (H : ∀ u x, gs.getD u none = some x → inRange mpg x = true ∧
+      inRange mpg (x + (if partOf part u = ip then 2 else -2) * wtRow row u) = true) :
+    ∃ gs', updNbrs mpg part ip row gs = .ok gs' := by
+  induction row generalizing gs with
+  | nil => exact ⟨gs, rfl⟩
+  | cons e row ih =>
+    obtain ⟨u', w⟩ := e
+    have hw0 : 0 ≤ w := hnn (u', w) (by simp)
+    have hnn' : ∀ e ∈ row, 0 ≤ e.2 := fun e he => hnn e (by simp [he])
+    have hw : ∀ u, wtRow ((u', w) :: row) u = (if u' = u then w else 0) + wtRow row u := by
+      intro u; simp [wtRow]
+    simp only [updNbrs]
+    cases hg : gs.getD u' none with
+    | none =>
+      simp only
+      apply ih gs hnn'
+      intro u x hx
+      have hne : u' ≠ u := by intro e; subst e; rw [hx] at hg; simp at hg
+      have := H u x hx
+      rw [hw, if_neg hne] at this
+      simpa using this
+    | some og =>
+      simp only
+      obtain ⟨r1, r2⟩ := H u' og hg
+      rw [hw, if_pos rfl] at r2
+      have hR := wtRow_nonneg row u' hnn'
+      rw [inRange_iff] at r1 r2
+      have hlt : u' < gs.length := getD_some_lt hg
+      have key : ∀ ug : Int, ug = og + (if partOf part u' = ip then 2 else -2) * w →
+          ∃ gs', (if inRange mpg ug = true then updNbrs mpg part ip row (gs.set u' (some ug))
+            else Except.error Abort.bucketIndex) = Except.ok gs' := by
+        intro ug hug
+        have hin : inRange mpg ug = true := by
+          rw [inRange_iff, hug]
+          split at r2 <;> simp_all <;> omega
+        rw [if_pos hin]
+        apply ih _ hnn'
+        intro u x hx
+        by_cases hne : u' = u
+        · subst hne
+          have hxu : x = ug := by
+            simpa [List.getD_eq_getElem?_getD, List.getElem?_set_self hlt] using hx.symm
+          rw [hxu]
+          refine ⟨hin, ?_⟩
+          rw [inRange_iff, hug]
+          split at r2 <;> simp_all <;> omega
+        · have hx' : gs.getD u none = some x := by
+            simpa [List.getD_eq_getElem?_getD, List.getElem?_set_ne hne] using hx
+          have := H u x hx'
+          rw [hw, if_neg hne] at this
+          simpa using this
+      by_cases hp : partOf part u' = ip
+      · simp only [hp, if_true] at key ⊢
+        exact key _ (by omega)
+      · simp only [hp, if_false] at key ⊢
+        exact key _ (by omega)
+
+theorem stepHyp_valid {prm : Params} {g : Graph} {ws : List Int} {mpg cap lb0 lb1 : Int} {o : Outer}
+    (V : Valid g) (hg : o.part.length = g.length) :
+    StepHyp prm g ws mpg cap lb0 lb1 True o (GInv g) := by
+  refine ⟨fun _ _ h => h, ?_, ?_⟩
+  · intro k st v gn nS st' I GI _ hv h
+    exact applyMove_ginv V (I.cur.plen.trans hg) (I.glen.trans hg) I.cur.ple GI (hg ▸ hv) h
+  · intro k st v gn I GI hgv hv _
+    refine Or.inr ?_
+    rw [I.cur.cut trivial, GI v gn hgv,
+      edgeCut_flip g V st.part v (I.cur.plen.trans hg) (hg ▸ hv) I.cur.ple]
+
+theorem applyMove_ok {prm : Params} {g : Graph} {ws : List Int} {st : PassSt} {k v : Nat}
+    {gn : Int} {nS : Nat} (V : Valid g)
+    (hpl : st.part.length = g.length) (hgl : st.gains.length = g.length)
+    (hle : ∀ i ∈ st.part, i ≤ 1) (GI : GInv g st) (hcut : st.cur = edgeCut g st.part)
+    (hv : v < g.length) (hgv : st.gains.getD v none = some gn) :
+    ∃ st', applyMove prm g ws (maxPossibleGain g) st k v gn nS = .ok st' := by
+  have hvp : v < st.part.length := by omega
+  have hvg : v < st.gains.length := by omega
+  have hflip := edgeCut_flip g V st.part v hpl hv hle
+  unfold applyMove
+  simp only
+  have hc : ¬ ((prm.dbg && st.cur - gn != edgeCut g (st.part.set v (1 - partOf st.part v))) = true) := by
+    rw [hflip, hcut, GI v gn hgv]; simp
+  rw [if_neg hc]
+  obtain ⟨gs', h⟩ := updNbrs_ok (mpg := maxPossibleGain g)
+    (part := st.part.set v (1 - partOf st.part v)) (ip := partOf st.part v)
+    (rowOf g v) (st.gains.set v none) (V.nonneg v hv) (by
+      intro u x hx
+      have huv : u ≠ v := by
+        intro e; subst e
+        rw [getD_set_none _ _ _ hvg (Or.inr rfl)] at hx; simp at hx
+      have hx' : st.gains.getD u none = some x := by
+        simpa [List.getD_eq_getElem?_getD, List.getElem?_set_ne (Ne.symm huv)] using hx
+      have hul : u < g.length := by rw [← hgl]; exact getD_some_lt hx'
+      have e1 := GI u x hx'
+      refine ⟨by rw [e1]; exact gain_inRange V _ u hul, ?_⟩
+      have e2 := gainOf_set g st.part v u hvp huv hle
+      rw [partOf_set _ _ _ _ hvp, if_neg huv, e1, ← V.sym u hul v hv, ← e2]
+      exact gain_inRange V _ u hul)
+  rw [h]
+  exact ⟨_, rfl⟩
+
+theorem applyMove_count {prm : Params} {g : Graph} {ws : List Int} {mpg : Int}
+    {st st' : PassSt} {k v : Nat} {gn : Int} {nS : Nat}
+    (hgv : st.gains.getD v none = some gn)
+    (h : applyMove prm g ws mpg st k v gn nS = .ok st') :
+    countSome st'.gains + 1 = countSome st.gains := by
+  unfold applyMove at h
+  simp only at h
+  split at h
+  · simp at h
+  · split at h
+    · simp at h
+    · next gains' hu =>
+      simp only [Except.ok.injEq] at h
+      subst h
+      simp only
+      rw [updNbrs_count hu, countSome_set_none _ _ _ hgv]
+
+theorem movesLoop_total {ch : Nat → Nat} {prm : Params} {g : Graph} {ws : List Int}
+    {cap lb0 lb1 : Int} {o : Outer} (V : Valid g)
+    (hws : o.part.length = ws.length) (hg : o.part.length = g.length)
+    (fuel k : Nat) (st : PassSt) (I : Inv g ws cap lb0 lb1 True o k st) (GI : GInv g st)
+    (hc : countSome st.gains < fuel) :
+    ∃ st', movesLoop ch prm g ws cap (maxPossibleGain g) fuel k st = .ok st' := by
+  have H : StepHyp prm g ws (maxPossibleGain g) cap lb0 lb1 True o (GInv g) := stepHyp_valid V hg
+  induction fuel generalizing k st with
+  | zero => omega
+  | succ fuel ih =>
+    simp only [movesLoop]
+    split
+    · exact ⟨_, rfl⟩
+    · split
+      · exact ⟨_, rfl⟩
+      · next gn s hsel =>
+        split
+        · exact ⟨_, rfl⟩
+        · obtain ⟨hne, hall⟩ := select_spec hsel
+          have hp := hall _ (pick_mem (ch k) s hne)
+          have hvn : pick (ch k) s < o.part.length := by rw [← I.glen]; exact hp.1
+          have I1 := I.setBad (if gn ≤ 0 then st.bad + 1 else 0)
+          have GI1 : GInv g { st with bad := (if gn ≤ 0 then st.bad + 1 else 0) } := GI
+          obtain ⟨st1, h1⟩ := applyMove_ok (prm := prm) (ws := ws) (k := k) (nS := s.length) V
+            (I1.cur.plen.trans hg) (I1.glen.trans hg) I1.cur.ple GI1 (I1.cur.cut trivial)
+            (hg ▸ hvn) hp.2.1
+          rw [h1]
+          simp only
+          have I2 := applyMove_inv hws I1 hvn hp.2.1 hp.2.2
+            (H.cut k _ _ gn I1 GI1 hp.2.1 hvn) h1
+          have GI2 := H.step k _ _ gn _ _ I1 GI1 hp.2.1 hvn h1
+          have hcnt := applyMove_count (st := { st with bad := (if gn ≤ 0 then st.bad + 1 else 0) }) hp.2.1 h1
+          exact ih (k + 1) st1 I2 GI2 (by simp only at hcnt; omega)
+
+theorem countSome_map_some (l : List Nat) (f : Nat → Int) :
+    countSome (l.map (fun v => some (f v))) = l.length := by
+  induction l with
+  | nil => rfl
+  | cons a l ih => simp only [countSome, List.map_cons, List.filter_cons] at ih ⊢; simp [ih]
+
+theorem onePass_total {ch : Nat → Nat} {prm : Params} {g : Graph} {ws : List Int}
+    {cap lb0 lb1 : Int} {p0 : List Nat} {c0 : Int} {i : Nat} {o : Outer} (V : Valid g)
+    (hws : p0.length = ws.length) (hg : p0.length = g.length)
+    (O : OInv g ws cap lb0 lb1 True prm p0 c0 i o) :
+    ∃ o', onePass ch prm g ws cap (maxPossibleGain g) o = .ok o' := by
+  have hog : o.part.length = g.length := O.plen.trans hg
+  have how : o.part.length = ws.length := O.plen.trans hws
+  unfold onePass
+  have hall : ¬ ((!(List.range o.part.length).all
+      (fun v => inRange (maxPossibleGain g) (gainOf g o.part v))) = true) := by
+    simp only [Bool.not_eq_true', Bool.not_eq_false, List.all_eq_true, List.mem_range]
+    intro v hv
+    exact gain_inRange V _ v (by omega)
+  rw [if_neg hall]
+  obtain ⟨st, hst⟩ := movesLoop_total (ch := ch) (prm := prm) V how hog (o.part.length + 1) 0 _
+    (initPass_inv O) (initPass_ginv g o) (by
+      simp only [initPass]
+      rw [countSome_map_some]; simp)
+  rw [hst]
+  simp only
+  obtain ⟨k', I, -, -⟩ := movesLoop_inv how (stepHyp_valid V hog) _ 0 _ _
+    (initPass_inv O) (initPass_ginv g o) (fun m _ => Nat.zero_le m) hst
+  have hr : ¬ st.hist.length < rewindTo st.bestAt := by
+    have := rewindTo_le I.bat
+    rw [I.hlen]; omega
+  rw [if_neg hr]
+  exact ⟨_, rfl⟩
+
+theorem passLoop_total {ch : Nat → Nat → Nat} {prm : Params} {g : Graph} {ws : List Int}
+    {cap lb0 lb1 : Int} {p0 : List Nat} {c0 : Int} (V : Valid g)
+    (hws : p0.length = ws.length) (hg : p0.length = g.length)
+    (fuel i : Nat) (o : Outer) (O : OInv g ws cap lb0 lb1 True prm p0 c0 i o)
+    (hf : o.best < fuel) :
+    ∃ o', passLoop ch prm g ws cap (maxPossibleGain g) fuel i o = .ok o' := by
+  induction fuel generalizing i o with
+  | zero =>
+    have := edgeCut_nonneg V o.part
+    have := O.cut trivial
+    omega
+  | succ fuel ih =>
+    simp only [passLoop]
+    split
+    · exact ⟨_, rfl⟩
+    · obtain ⟨o1, h1⟩ := onePass_total (ch := ch i) V hws hg O
+      rw [h1]
+      simp only
+      split
+      · exact ⟨_, rfl⟩
+      · next hlt =>
+        obtain ⟨O1, -⟩ := onePass_inv hws O (stepHyp_valid V (O.plen.trans hg)) (initPass_ginv g o) h1
+        exact ih (i + 1) o1 O1 (by omega)
+
+theorem run_total {ch : Nat → Nat → Nat} {prm : Params} {capOpt : Option Int} {g : Graph}
+    {ws : List Int} {p : List Nat} (V : Valid g) (a : Abort) :
+    run ch prm capOpt g ws p ≠ .abort a := by
+  unfold run
+  split
+  · simp
+  · next hl1 =>
+    split
+    · simp
+    · next hl2 =>
+      split
+      · simp
+      · split
+        · simp
+        · next hany =>
+          simp only
+          have hm := mpg_nonneg V
+          rw [if_neg (by omega)]
+          have hle : ∀ x ∈ p, x ≤ 1 := by
+            intro x hx
+            have h1 : ¬ (1 < x) := fun hh => hany (List.any_eq_true.mpr ⟨x, hx, by simpa using hh⟩)
+            omega
+          have O0 : OInv g ws (capOf capOpt ws p) (load ws p 0) (load ws p 1) True prm p
+              (edgeCut g p) 0
+              { part := p, pw0 := load ws p 0, pw1 := load ws p 1, best := edgeCut g p,
+                moves := [], rewound := [], logs := [] } :=
+            ⟨rfl, hle, rfl, rfl, fun _ => ⟨Int.le_max_left _ _, Int.le_max_left _ _⟩,
+              fun _ => rfl, Int.le_refl _, rfl, rfl, by simp, by simp, by simp [ham_self]⟩
+          obtain ⟨o', h'⟩ := passLoop_total (ch := ch) V (by simpa using hl1) (by simpa using hl2)
+            (passFuel g p) 0 _ O0 (by
+              have h1 := edgeCut_nonneg V p
+              have h2 := negTotal_nonneg g
+              simp only [passFuel]
+              omega)
+          rw [h']
+          simp
+
+/-- States reached by the move loop of a pass that starts from a consistent state `o`. -/
+theorem movesLoop_reach {ch : Nat → Nat} {prm : Params} {g : Graph} {ws : List Int} {cap : Int}
+    {o : Outer} {st : PassSt} (V : Valid g) (fuel : Nat)
+    (hg : o.part.length = g.length) (hws : o.part.length = ws.length)
+    (hle : ∀ i ∈ o.part, i ≤ 1) (hp0 : o.pw0 = load ws o.part 0) (hp1 : o.pw1 = load ws o.part 1)
+    (hb : o.best = edgeCut g o.part)
+    (h : movesLoop ch prm g ws cap (maxPossibleGain g) fuel 0 (initPass g o) = .ok st) :
+    GInv g st ∧ st.cur = edgeCut g st.part := by
+  have G : Good g ws cap o.pw0 o.pw1 True o 0 o.best o.part o.pw0 o.pw1 :=
+    ⟨rfl, hle, hp0, hp1, fun _ => ⟨Int.le_max_left _ _, Int.le_max_left _ _⟩, by simp [ham_self],
+      fun _ => hb⟩
+  obtain ⟨k', I, GI, -⟩ := movesLoop_inv hws (stepHyp_valid V hg) fuel 0 _ _
+    (initPass_inv' G) (initPass_ginv g o) (fun m _ => Nat.zero_le m) h
+  exact ⟨GI, I.cur.cut trivial⟩
 
 end Coupe.Fm
